@@ -43,3 +43,33 @@ def pen_cond(x):
 
 def zero(x):
     return 0.0
+
+
+# ------------------------------------------------------------------------------------------------ ensembles
+PER = []      # (work item index, real objective calls made while that work item ran) -- filled by cmap
+
+
+def cmap(f, *args, **kwds):
+    """the in-process serial map handed to the ensembles (SetMapper): members run one after the other, in member order,
+    exactly as with python's map; additionally the REAL objective calls of every work item (= member) are noted"""
+    out = []
+    for j, a in enumerate(zip(*args)):
+        c0 = CALLS[0]
+        out.append(f(*a))
+        PER.append((j, CALLS[0] - c0))
+    return out
+
+
+class StopMember(object):
+    """user termination condition of the ensemble checks: holds for the member solvers whose id is in `ids` once they
+    have completed generation `at` (ids=() never holds).  A deterministic function of the solver's own state."""
+
+    def __init__(self, ids=(), at=0):
+        self.ids, self.at = tuple(ids), int(at)
+        self.__doc__ = "StopMember with %s" % {"ids": self.ids, "at": self.at}
+
+    def __call__(self, solver, info=False):
+        hit = getattr(solver, "id", None) in self.ids and solver.generations >= self.at
+        if info:
+            return self.__doc__ if hit else ""
+        return hit
